@@ -158,6 +158,9 @@ def trace_run(cfg, ledger=True, max_steps=None, stepper=None):
         m = sim.build_model(cfg)
     m._initialize()
     init = snapshot_params(m)
+    # what the USER asked for, not the model's own reading of it
+    init["off_season_model"] = init["off_season"]
+    init["off_season"] = bool(cfg.get("off_season", False))
     # the weather the USER supplied for each step (by date, from the configuration's table - not from the model's own matrix):
     # the monitors judge rain / ET0 / temperatures against what the user gave
     try:
